@@ -445,3 +445,12 @@ func (w *World) VerifAliveEntities() []Entity {
 func VerifNewEntity(id uint32, gen uint32) Entity {
 	return Entity{eid(id), gen}
 }
+
+// VerifID makes a component ID from its numeric value.
+func VerifID(v uint8) ID { return ID{id: v} }
+
+// VerifIDValue returns the numeric value of a component ID.
+func VerifIDValue(id ID) uint8 { return id.id }
+
+// VerifResIDValue returns the numeric value of a resource ID.
+func VerifResIDValue(id ResID) uint8 { return id.id }
